@@ -89,6 +89,10 @@ func afPrelude() []afCase {
 		signIn("google", good(), "sess", sess(func(s *afSess) { s.Refresh = -10 }), func(s *afStep) { s.Token = afIdP{Kind: "status", Status: 400, ErrDesc: "Token expired or revoked"} }),
 		signIn("google", good(), "sess", sess(func(s *afSess) { s.Refresh = -10 }), func(s *afStep) { s.Token = afIdP{Kind: "status", Status: 503} }),
 		signIn("google", good(), "sess", sess(func(s *afSess) { s.Email = "eve@evil.io" }), nil),
+		signIn("google", good(), "sess", sess(func(s *afSess) { s.Email = "mallory@x.io@evil.io" }), nil), // two '@': the domain is what follows the last one
+		signIn("google", good(), "sess", sess(func(s *afSess) { s.Email = "mallory@evil.io@x.io" }), nil),
+		signIn("google", good(), "sess", sess(func(s *afSess) { s.Email = "localadmin" }), nil), // no '@' at all
+		signIn("google", good(), "sess", sess(func(s *afSess) { s.Email = "@x.io" }), nil),
 		signIn("google", good(), "garbage", nil, nil),
 		signIn("google", good(), "otherkey", sess(nil), nil),
 		signIn("google", &afSign{URI: afCallbackURI}, "sess", sess(nil), nil), // no state
@@ -130,7 +134,8 @@ func afPrelude() []afCase {
 	tok := func(t string) afIdP { return afIdP{Kind: "ok", Access: "idp-at", RefreshT: "idp-rt", TTL: 600, IDToken: t} }
 	var flows []afStep
 	flows = append(flows, start("google"), cb("google", nil), signIn("google", good(), "jar", nil, nil))
-	for _, t := range []string{mkIDToken("ann@x.io", false, 3, false, false), mkIDToken("", true, 3, false, false), mkIDToken("ann@x.io", true, 2, false, false),
+	for _, t := range []string{mkIDToken("localadmin", true, 3, false, false), mkIDToken("mallory@x.io@evil.io", true, 3, false, false), mkIDToken("@", true, 3, false, false),
+		mkIDToken("ann@x.io", false, 3, false, false), mkIDToken("", true, 3, false, false), mkIDToken("ann@x.io", true, 2, false, false),
 		mkIDToken("ann@x.io", true, 1, false, false), mkIDToken("ann@x.io", true, 0, false, false), mkIDToken("ann@x.io", true, 3, true, false),
 		mkIDToken("ann@x.io", true, 3, false, true), mkIDToken("eve@evil.io", true, 3, false, false), mkIDToken("ann@x.io", true, 5, false, false)} {
 		t := t
@@ -171,7 +176,8 @@ func afPrelude() []afCase {
 	)
 	for _, acc := range []string{"text/plain", "text/plain, */*", "text/*;q=0.9", "application/json", "application/json, text/plain", "*/*", ""} {
 		acc := acc
-		for _, msg := range []string{"<script>alert(1)</script>", "  <b>denied</b>", "<!-- x --><a href=//evil.io>go</a>", "plain denied"} {
+		for _, msg := range []string{"<script>alert(1)</script>", "  <b>denied</b>", "<!-- x --><a href=//evil.io>go</a>", "plain denied",
+			"\\u003cscript\\u003e", "a \\u0026 b \\\" c", "back\\slash \\n \\u2028"} {
 			msg := msg
 			flows = append(flows, start("google"), cb("google", func(s *afStep) {
 				s.Query = [][2]string{{"code", "c"}, {"state", "{IDPSTATE}"}, {"error", msg}}
@@ -343,7 +349,8 @@ func init() {
 		hosts := []string{"app.x.io", "x.io", "evil.io", "x.io.evil.io", "notx.io", "a.apps.y.io", "apps.y.io", "APP.x.io", "app.x.io:443", "[::1%25.x.io]", "x.io.", "evil.io\\@app.x.io", "u:p@app.x.io", "app.x.io@evil.io", "io", "y.io", "o", ".io", "ps.y.io"}
 		schemes := []string{"https://", "http://", "//", "", "javascript://", "HTTPS://"}
 		paths := []string{"/oauth2/callback", "/", "", "/?x=.x.io", "/#.x.io", "/%2e%2e"}
-		emails := []string{"ann@x.io", "Ann@X.IO", "eve@evil.io", "ann@x.io.evil.io", "", "x@notx.io", "\"<b>x</b><script>1</script>\"@x.io"}
+		emails := []string{"ann@x.io", "Ann@X.IO", "eve@evil.io", "ann@x.io.evil.io", "", "x@notx.io", "\"<b>x</b><script>1</script>\"@x.io",
+			"mallory@x.io@evil.io", "mallory@evil.io@x.io", "localadmin", "@x.io", "ann@", "@"}
 		var pool []afStep
 		for _, c := range pre {
 			pool = append(pool, c.Steps...)
